@@ -39,15 +39,29 @@ WaveTolVerdict(c) ==
     ELSE "ok"
 
 \* ---------- sampled signal ----------
-SignalVerdict(c) ==
-    IF ~(c.sub = 4 /\ Len(c.y4) >= 2 /\ Len(c.js) = Len(c.v16) /\ Len(c.js) = Len(c.ongrid)) THEN "malformed: signal record"
-    ELSE IF \E k \in 1..Len(c.js) : ~c.ongrid[k] /\ c.js[k] >= 0 /\ W!SampleIdx(c.js[k], 4) + 2 <= Len(c.y4)
+\* The samples may be handed over in any array-like form (Python ints, integer / float32 / float64 numpy arrays, mixed
+\* lists, booleans, complex numbers: field `given`); the claim is the same for all of them.  A complex signal is its real
+\* and imaginary part, each interpolated on its own: y4 / v16 are the real parts, y4i / v16i the imaginary parts (all zero
+\* for a real signal, whose result must have no imaginary part either).
+PartVerdict(c, y, v, og) ==
+    IF \E k \in 1..Len(c.js) : ~og[k] /\ c.js[k] >= 0 /\ W!SampleIdx(c.js[k], 4) + 2 <= Len(y)
          THEN "signal: value between two samples is not on their chord"       \* the chord is on the 1/16 grid, the value is not
-    ELSE IF \E k \in 1..Len(c.js) : ~W!AtSampleTimes(c.y4, c.js[k], 4, << c.v16[k], 4 >>) THEN "signal: sample not reproduced at its sample time"
-    ELSE IF \E k \in 1..Len(c.js) : ~W!LinearBetween(c.y4, c.js[k], 4, << c.v16[k], 4 >>) THEN "signal: value between two samples is not on their chord"
-    ELSE IF \E k \in 1..Len(c.js) : ~c.ongrid[k] \/ << c.v16[k], 4 >> # W!Amp(c.y4, c.js[k], 4, c.outside4, "linear")
-         THEN "model: outside value / hold of the last sample differs from the model"
-    ELSE "ok"
+    ELSE IF \E k \in 1..Len(c.js) : ~W!AtSampleTimes(y, c.js[k], 4, << v[k], 4 >>) THEN "signal: sample not reproduced at its sample time"
+    ELSE IF \E k \in 1..Len(c.js) : ~W!LinearBetween(y, c.js[k], 4, << v[k], 4 >>) THEN "signal: value between two samples is not on their chord"
+    ELSE ""
+ModelOK(c, y, v, og, outside) == \A k \in 1..Len(c.js) : og[k] /\ << v[k], 4 >> = W!Amp(y, c.js[k], 4, outside, "linear")
+SignalVerdict(c) ==
+    IF ~(c.sub = 4 /\ Len(c.y4) >= 2 /\ Len(c.y4i) = Len(c.y4) /\ Len(c.js) = Len(c.v16) /\ Len(c.js) = Len(c.ongrid)
+         /\ Len(c.js) = Len(c.v16i) /\ Len(c.js) = Len(c.ongridi)) THEN "malformed: signal record"
+    ELSE IF ~c.exact_times THEN "malformed: time grid is not exact in the dtype of the time array"
+    ELSE IF ~c.built THEN "signal: the profile rejected a legal sample array"
+    ELSE LET re == PartVerdict(c, c.y4, c.v16, c.ongrid)
+             im == PartVerdict(c, c.y4i, c.v16i, c.ongridi)
+         IN  IF re # "" THEN re
+             ELSE IF im # "" THEN im
+             ELSE IF ~(ModelOK(c, c.y4, c.v16, c.ongrid, c.outside4) /\ ModelOK(c, c.y4i, c.v16i, c.ongridi, 0))
+                  THEN "model: outside value / hold of the last sample differs from the model"
+             ELSE "ok"
 
 \* ---------- continuous wave: ramps up, never exceeds unit amplitude ----------
 CwVerdict(c) ==
